@@ -54,6 +54,10 @@ __CPROVER_ensures(g_failure_seen == (__CPROVER_old(g_failure_seen) || __CPROVER_
 void backup_create_md5_file_contract(const char *filename)
 __CPROVER_requires(filename == g_p_in && INPLACE)
 __CPROVER_requires(g_target_is_final)
+/* C14 (one step of the protocol invariant "md5 file == md5(file)  =>  the backup holds the last text uncrustify did not write"):
+ * recording the md5 declares the file's content to be uncrustify's own; that is only sound if THIS run made sure the
+ * content it started from is in the backup (backup_copy_file returned EX_OK: copied, or legitimately skipped) */
+__CPROVER_requires(g_backup_done_ok)
 __CPROVER_assigns(g_fs_writes, g_md5_written)
 __CPROVER_ensures(g_md5_written && g_fs_writes == __CPROVER_old(g_fs_writes) + 1)
 ;
